@@ -136,7 +136,8 @@ fn run_n<const N: usize>(script: &Script, keep: bool) -> Outcome {
     for (i, st) in script.steps.iter().enumerate() {
         let r = std::panic::catch_unwind(std::panic::AssertUnwindSafe(|| ex.step(i, st)));
         if r.is_err() {
-            let (c, m) = crate::exec::classify_stray_panic(cls::ZST | cls::PANIC_SPEC);
+            // the observers only call views and iterators (get / nth_* / range / iter / as_slices)
+            let (c, m) = crate::exec::classify_stray_panic(cls::ZST | cls::PANIC_SPEC | cls::VIEW | cls::ITER);
             ex.cur = i;
             ex.fail(c, m);
             // the buffer taken out of its slot during the step is gone: do not touch it again
@@ -513,13 +514,23 @@ impl<const N: usize> ZEx<N> {
                     self.hand.pop();
                 }
                 Op::Fill => {
+                    may_alloc = true; // the two documented panics below allocate their payloads
                     // a completely full buffer of capacity N can only be built from an array of
                     // N unit values; the single-element insertions must behave as on any full buffer
                     let r = self.call(false, || {
                         let mut u: CircularBuffer<N, ()> = CircularBuffer::from([(); N]);
                         let a = (u.len() == N, u.is_full(), u.push_back(()).is_some(), u.len() == N, u.push_front(()).is_some(), u.len() == N);
                         let t = (u.try_push_back(()).is_err(), u.try_push_front(()).is_err(), u.len() == N, u.pop_back().is_some(), u.len() == N - 1, u.try_push_front(()).is_ok(), u.is_full());
-                        (a, t)
+                        // appending to a full buffer keeps it full; bounds one past usize::MAX
+                        // must still be rejected (documented panic), not clamped
+                        u.extend_from_slice(&[(), ()]);
+                        u.extend([(), ()]);
+                        let e = u.len() == N && u.is_full();
+                        let p1 = N != usize::MAX || std::panic::catch_unwind(std::panic::AssertUnwindSafe(|| u.range(..=usize::MAX).len())).is_err();
+                        let p2 = N != usize::MAX
+                            || std::panic::catch_unwind(std::panic::AssertUnwindSafe(|| u.range((std::ops::Bound::Excluded(usize::MAX), std::ops::Bound::Unbounded)).len())).is_err();
+                        let g = u.get(usize::MAX).is_none() && u.nth_back(usize::MAX).is_none() && u.range(N - 1..).len() == 1;
+                        (a, (t.0, t.1, t.2, t.3, t.4, t.5, t.6 && e && p1 && p2 && g))
                     });
                     if let Some((a, t)) = r {
                         if a != (true, true, true, true, true, true) || t != (true, true, true, true, true, true, true) {
